@@ -11,9 +11,16 @@ from jaxtyping import Array
 def try_cast(x: Any) -> Array | None:
     try:
         array = jnp.asarray(x)
+    except OverflowError:
+        # Python integers beyond the default integer type (``2**40`` without x64,
+        # ``2**63``): compare their values in floating point.
+        try:
+            array = jnp.asarray(np.asarray(x, dtype=float))
+        except Exception:
+            return None
     except Exception:
-        # Any conversion failure means "not a member" (e.g. ``jnp.asarray("012")``
-        # raises ``SyntaxError``).
+        # Any other conversion failure means "not a member" (e.g.
+        # ``jnp.asarray("012")`` raises ``SyntaxError``).
         return None
 
     if jnp.issubdtype(array.dtype, jnp.complexfloating):
